@@ -1,85 +1,16 @@
 -------------------------------- MODULE Feed --------------------------------
-(***************************************************************************)
-(* The clients' line loop over a TCP byte stream (C16).                    *)
-(*                                                                         *)
-(* The server sends a fixed byte stream in segments; after each segment    *)
-(* there is a short gap (the next segment arrives before the client's      *)
-(* 50 ms read timeout) or a long one (the timeout fires first).  The       *)
-(* client repeatedly calls read_line on a buffered reader: it returns a    *)
-(* complete line as soon as one is available, or - after a timeout -       *)
-(* fails, leaving whatever it had read appended to the line buffer.        *)
-(*                                                                         *)
-(* Bytes are abstract: line k of the feed is <<10k+1, .., 10k+n-1, 10(k+1)>>*)
-(* - the newline is the multiple of 10.  A line of fewer than three bytes  *)
-(* cannot be a frame (`*;` + newline is the shortest).                     *)
-(*                                                                         *)
-(* KeepPartial = TRUE : the line buffer survives a timeout and is cleared  *)
-(*                      only after a complete line (the code after the fix)*)
-(* KeepPartial = FALSE: the original loops cleared the buffer on every     *)
-(*                      iteration - named deviation ClearOnTimeout; and    *)
-(* GuardShort = FALSE : sliced [1 .. len-2] without a length check.        *)
-(***************************************************************************)
-EXTENDS Integers, Sequences, SequencesExt
+(* The clients' line loop (FeedCore) together with its Level-A properties.  The state machine lives in FeedCore  *)
+(* so that the proof system, which does not accept RECURSIVE operators, can load it (Feed_proofs).                *)
+EXTENDS FeedCore
 
-CONSTANTS Stream,        \* the bytes the server sends
-          KeepPartial, GuardShort,
-          MaxSegs        \* bound on the number of segments of a schedule
-
-VARIABLES sent, gap, avail, input, processed, crashed, pc, sched
-vars == <<sent, gap, avail, input, processed, crashed, pc, sched>>
-
-IsNL(b) == b % 10 = 0
 \* complete lines of a byte sequence
 RECURSIVE SplitLines(_, _, _)
 SplitLines(s, cur, acc) == IF s = <<>> THEN acc
                            ELSE IF IsNL(Head(s)) THEN SplitLines(Tail(s), <<>>, Append(acc, Append(cur, Head(s))))
                            ELSE SplitLines(Tail(s), Append(cur, Head(s)), acc)
 Complete(s) == SplitLines(s, <<>>, <<>>)
-NLIdx(s) == IF \E i \in 1..Len(s) : IsNL(s[i]) THEN CHOOSE i \in 1..Len(s) : IsNL(s[i]) /\ \A j \in 1..(i - 1) : ~IsNL(s[j]) ELSE 0
-
-Init == /\ sent = 0 /\ gap = "short" /\ avail = <<>> /\ input = <<>> /\ processed = <<>> /\ crashed = FALSE
-        /\ pc = "read" /\ sched = <<>>
-
-\* nothing more arrives within the read timeout
-MayTimeOut == gap = "long" \/ sent = Len(Stream)
-\* the client has consumed what it can: it waits in read_line for more bytes (a short gap cannot be
-\* told from "still processing": the buffered reader just accumulates, so schedules are explored in
-\* this canonical interleaving)
-ClientBlocked == pc = "read" /\ NLIdx(avail) = 0 /\ (Len(avail) = 0 \/ ~MayTimeOut)
-
-\* the server sends the next k bytes as one segment, followed by a gap of kind g
-Send == /\ sent < Len(Stream) /\ ~crashed /\ ClientBlocked
-        /\ \E k \in 1..(Len(Stream) - sent), g \in {"short", "long"} :
-              /\ (Len(sched) = MaxSegs - 1 => k = Len(Stream) - sent)        \* the last allowed segment carries the rest
-              /\ avail' = avail \o SubSeq(Stream, sent + 1, sent + k) /\ sent' = sent + k /\ gap' = g
-              /\ sched' = Append(sched, <<k, g>>)
-        /\ UNCHANGED <<input, processed, crashed, pc>>
-
-ReadLine ==
-  /\ pc = "read" /\ ~crashed
-  /\ LET i == NLIdx(avail) IN
-     \/ /\ i > 0                                                \* a complete line is there (possibly after short gaps)
-        /\ input' = input \o SubSeq(avail, 1, i) /\ avail' = SubSeq(avail, i + 1, Len(avail))
-        /\ pc' = "process"
-     \/ /\ i = 0 /\ MayTimeOut /\ Len(avail) > 0                \* timeout: the partial line is appended, the call fails
-        /\ avail' = <<>> /\ pc' = "read"
-        /\ input' = IF KeepPartial THEN input \o avail ELSE <<>>     \* ClearOnTimeout (original code)
-  /\ UNCHANGED <<sent, gap, processed, crashed, sched>>
-
-Process ==
-  /\ pc = "process" /\ ~crashed /\ pc' = "read" /\ input' = <<>>
-  /\ IF Len(input) < 3
-     THEN IF GuardShort THEN UNCHANGED <<processed, crashed>>          \* skipped
-          ELSE crashed' = TRUE /\ UNCHANGED processed                  \* [1 .. len-2] panics
-     ELSE processed' = Append(processed, input) /\ UNCHANGED crashed
-  /\ UNCHANGED <<sent, gap, avail, sched>>
-
-Next == Send \/ ReadLine \/ Process
-Spec == Init /\ [][Next]_vars
-
 \* ---- Level A -------------------------------------------------------------------------------
 Expected == SelectSeq(Complete(Stream), LAMBDA ln : Len(ln) >= 3)
-NoCrash == ~crashed
 ExactlyOnceInOrder == IsPrefix(processed, Expected)
 \* at quiescence everything has been processed
 Quiescent == sent = Len(Stream) /\ avail = <<>> /\ pc = "read" /\ NLIdx(input) = 0
